@@ -141,8 +141,9 @@ func CoqStep(id int, in *Input, st *Step, obs *StepObs) string {
 			old = "(Some " + coqBackend(b.OldFlags, oldIDs, b.Old) + ")"
 		}
 		cur := coqBackend(b.Flags, curIDs, b.Cur)
+		_, earlyIDs := cfgIDs(b.OldCfg, b.EarlyCfg)
 		ans, exe, cmds := coqAnswers(b.Exch)
-		bs = append(bs, fmt.Sprintf("mkBC %s %s %s %s %s %s %s %s %s %s %s", old, cur, hx.Bool(b.Flags.Affinity), ans, exe,
+		bs = append(bs, fmt.Sprintf("mkBC %s %s %s %s %s %s %s %s %s %s %s %s", old, cur, coqCfg(earlyIDs), hx.Bool(b.Flags.Affinity), ans, exe,
 			hx.Bool(b.Shrunk), cmds, coqEps(b.Res), coqServers(backendOf(obs.Before, b.ID)), coqServers(backendOf(obs.Running, b.ID)),
 			coqServers(backendOf(obs.Loaded, b.ID))))
 	}
